@@ -175,6 +175,24 @@ def main(tier):
             recs.append({"id": cid, "kind": "pair", "mn": "", "form": "", "v": 0, "addr": 0,
                          "ok": o["ok"], "bytes": whole(o) if o["ok"] else [], "ndiags": ndiags, "pcafter": -1,
                          "a": whole(sa), "b": whole(sb), "smn": m["s"]["mn"], "sform": m["s"]["form"], "tform": m["t"]["form"]})
+    # process level: a seeded sample of the encoding cases through the `mos build` command (binds the CLI path and the PRG writer)
+    import subprocess, shutil
+    mos = V.build_mos()
+    root = V.fresh_dir("C01-proc")
+    sample = [c for c in tcases if c["kind"] == "enc"]
+    rnd.shuffle(sample)
+    for k, c in enumerate(sample[:120 if tier == "quick" else 1200]):
+        d = os.path.join(root, "p%d" % k)
+        os.makedirs(d)
+        open(os.path.join(d, "mos.toml"), "w").write('[build]\nentry = "main.asm"\n')
+        open(os.path.join(d, "main.asm"), "w").write("* = $%x\n%s\n" % (c["addr"], render_stmt(c["mn"], c["form"], c["v"], rnd)))
+        p = subprocess.run([mos, "--no-color", "-e", "Short", "build"], cwd=d, capture_output=True, timeout=60)
+        prg = os.path.join(d, "target", "main.prg")
+        data = list(open(prg, "rb").read()) if os.path.exists(prg) else []
+        recs.append({"id": 10_000_000 + k, "kind": "proc", "mn": c["mn"], "form": c["form"], "v": c["v"], "addr": c["addr"], "exit": p.returncode, "file": data})
+        meta[10_000_000 + k] = {"kind": "proc", "src": open(os.path.join(d, "main.asm")).read()}
+        obs[10_000_000 + k] = {"exit": p.returncode, "stdout": p.stdout.decode("utf-8", "replace")[-400:], "file": data}
+    shutil.rmtree(root, ignore_errors=True)
     # single statements: judged as enc cases were; here they only feed the pairs
     verdicts, st = V.judge(os.path.join(SPEC, "IsaTrace.tla"), recs, cfg=os.path.join(SPEC, "IsaTrace.cfg"), tag="C01-judge", batch=20000)
     rep.add_stats(st)
@@ -188,7 +206,7 @@ def main(tier):
     for cid in list(meta)[:2] + pair_ids[:2]:
         rep.sample({"program": meta[cid]["src"], "observed_ok": obs[cid]["ok"], "bytes": whole(obs[cid])[:8]})
     rep.assumptions += ["operand values beyond 16 bits in absolute forms and negative operands are unspecified by C01 (accepted either way)",
-                        "in-process assembly through mos_core::parser::parse + codegen (default segment at the case's origin)"]
+                        "in-process assembly through mos_core::parser::parse + codegen (default segment at the case's origin); a seeded sample of 120 / 1200 cases also through the `mos build` process"]
     for v in verdicts:
         cid = v["id"]
         rep.verdict(v, {"program": meta[cid]["src"], "case": {k: x for k, x in meta[cid].items() if k != "src"}, "observation": obs[cid],
